@@ -45,11 +45,14 @@ type wv struct {
 }
 
 func wSimple(s string) *wv { return &wv{t: '+', s: []byte(s)} }
-func wErr(s string) *wv    { return &wv{t: '-', s: []byte(s)} }
-func wInt(n int64) *wv     { return &wv{t: ':', n: n} }
-func wBulk(b []byte) *wv   { return &wv{t: '$', s: append([]byte{}, b...)} }
-func wNil() *wv            { return &wv{t: '$', null: true} }
-func wArr(a []*wv) *wv     { return &wv{t: '*', a: a} }
+func wErr(s string) *wv {
+	// as Redis does: an error reply is one line
+	return &wv{t: '-', s: []byte(strings.NewReplacer("\r", " ", "\n", " ").Replace(s))}
+}
+func wInt(n int64) *wv   { return &wv{t: ':', n: n} }
+func wBulk(b []byte) *wv { return &wv{t: '$', s: append([]byte{}, b...)} }
+func wNil() *wv          { return &wv{t: '$', null: true} }
+func wArr(a []*wv) *wv   { return &wv{t: '*', a: a} }
 
 func (v *wv) encode(b *bytes.Buffer) {
 	switch v.t {
